@@ -1,6 +1,7 @@
 package reactive
 
 import (
+	"sort"
 	"sync"
 
 	"github.com/iotaledger/hive.go/ds/shrinkingmap"
@@ -64,23 +65,23 @@ func (e *evictionState[Type]) evict(slot Type) []Event {
 		return nil
 	}
 
-	var startingSlot Type
-	if e.lastEvictedSlot == nil {
-		startingSlot = 0
-	} else {
-		startingSlot = *e.lastEvictedSlot + Type(1)
-	}
-
-	var eventsToTrigger []Event
-	for i := startingSlot; i <= slot; i++ {
-		if slotEvictedEvent, exists := e.evictionEvents.Get(i); exists {
-			eventsToTrigger = append(eventsToTrigger, slotEvictedEvent)
-			e.evictionEvents.Delete(i)
+	// collect the registered events of all slots up to the given slot in ascending order (instead of probing the slots
+	// one by one, counted up from 0 or the last evicted slot: slots of a signed type may be negative, slots of a float
+	// type may lie between two integers, and the events of such slots were never reached)
+	var evictedSlots []Type
+	e.evictionEvents.ForEachKey(func(registeredSlot Type) bool {
+		if registeredSlot <= slot {
+			evictedSlots = append(evictedSlots, registeredSlot)
 		}
 
-		// slot may be the largest value of Type: i++ would wrap around and i <= slot hold forever
-		if i == slot {
-			break
+		return true
+	})
+	sort.Slice(evictedSlots, func(i, j int) bool { return evictedSlots[i] < evictedSlots[j] })
+
+	var eventsToTrigger []Event
+	for _, evictedSlot := range evictedSlots {
+		if slotEvictedEvent, deleted := e.evictionEvents.DeleteAndReturn(evictedSlot); deleted {
+			eventsToTrigger = append(eventsToTrigger, slotEvictedEvent)
 		}
 	}
 
